@@ -298,13 +298,14 @@ Section Edwards.
      result; ed25519_lib maps all of these to ValueError.  Main model: the scalar is the integer s.
      [cur]: libsodium CLEARS BIT 255 of the scalar (t[31] &= 127), so today s >= 2^255 silently multiplies by
      s - 2^255. *)
+  Definition mul_scalar (cur : bool) (s : Z) : Z := if cur then Z.land s clamp else s.
   Definition unclamped_mul (cur : bool) (is_gen : bool) (s : Z) (enc : list N) : res (list N) :=
     sb <- int_encode clen s ;;
     if negb (point_is_encoded_bytes clen enc) then Err TypeError else
     P <- decode enc ;;
     if negb is_gen && negb ((snd P <? q) && Ed25519Lib.on_curve q d P && in_prime_subgroup (reduce P)
                             && negb (zpt_eqb (reduce P) (0, 1))) then Err ValueError else
-    let R := esmul (if cur then Z.land s clamp else s) (reduce P) in
+    let R := esmul (mul_scalar cur s) (reduce P) in
     if zpt_eqb R (0, 1) || (s =? 0) then Err ValueError else encode R.
   Definition point_mul (cur : bool) (enc : list N) (s : Z) : res (list N) :=
     unclamped_mul cur (list_eqb enc g_enc) s enc.
